@@ -735,6 +735,10 @@ package scipipe
 //@ func (*Task).formatCommand(t, cmd, portInfos, inIPs, subStreamIPs, outIPs, params, tags, prepend) (res)
 //@   props C15
 //@   deterministic structural
+// Replay only (never an obligation or an assumption): a failing atcall obligation is replayed on the command that
+// consists of the one placeholder the model is looking at, and the real result is compared with the documented expansion.
+//@   replay input cmd = placeholderText(portInfo.portType, portName, placeHolder.modifiers)
+//@   replaycheck expands-as-documented[C01,C09,C13,C15,C17,C18]: res == expandedCmd(cmd, portInfos, inIPs, subStreamIPs, outIPs, params, tags, prepend)
 //@   atcall strings.Replace all-occurrences[C15]: $arg3 < 0 && $arg1 == placeHolder.match && $arg2 == replacement
 //@   atcall strings.Replace known-type[C09,C15]: portInfo.portType == "o" || portInfo.portType == "os" || portInfo.portType == "i" || portInfo.portType == "p" || portInfo.portType == "t"
 //@   atcall strings.Replace case-o[C01,C13,C15]: portInfo.portType == "o" ==> outIPs[portName] != nil && replacement == replaceAll(applyMods(tempPathOf(outIPs[portName].path), placeHolder.modifiers), "../", "__parent__")
